@@ -128,14 +128,14 @@ prop('C11', ['S1', 'S2', 'S3', 'K2'],
      'reads rely on (S3).',
      ['cross-process behaviour', 'protocols', 'post-load equality'])
 
-prop('C12', ['G7', 'G1', 'G2', 'G3', 'G4', 'G5', 'G6', 'L4', 'K6', 'K6py', 'NS1'],
+prop('C12', ['G7', 'G1', 'G2', 'G3', 'G4', 'G8', 'G5', 'G6', 'L4', 'K6', 'K6py', 'NS1'],
      'Registry: validation dominates mutation and nothing fallible follows the first mutation '
      '(G1); no C-API failure result is ignored (G2); the Python mirror is written only after the '
      'engine call, under the lock, with the same key, by exactly two functions (G3); a mutation '
      'addressed to a namespace touches only that namespace\'s map (G6); all six entry '
      'points validate class and namespace first (G4); references are paired (G5); check-then-act '
      'is one exclusive region and Lookup returns by value (L4); lookup order in engine and Python '
-     'twin, and the Python listing lets the namespace entry win (K6, K6py); the namespace asked for is handed down unchanged to every engine function that takes one (NS1); both registries (None-is-node, None-is-leaf) are updated by every register / unregister call (G7).',
+     'twin, and the Python listing lets the namespace entry win (K6, K6py); the namespace asked for is handed down unchanged to every engine function that takes one (NS1); both registries (None-is-node, None-is-leaf) are updated by every register / unregister call (G7); the decorator-factory forms carry every option to the deferred call (G8).',
      ['behaviour after arbitrary histories'])
 
 prop('C13', ['D1', 'D2', 'D3', 'K2', 'NS1'],
